@@ -38,13 +38,16 @@ meta["suite_passes_with_patch"] = not failed
 meta["ran"].append(f"cargo test --workspace --no-fail-fast --offline  (with patch, {dt:.0f}s): {'pass' if not failed else 'FAIL'}")
 demo = os.path.join(mdir, "demo")
 demo_env = {"CARGO_TARGET_DIR": os.path.join(wt, "target", "demos")}
-code, out, dt = run("cargo run --offline 2>&1 | tail -15", demo, demo_env)
-code_with, _, _ = run("cargo run --offline >/dev/null 2>&1", demo, demo_env)
+# demos are either a program (cargo run) or a test crate (cargo test)
+demo_cmd = "cargo run --offline" if os.path.exists(os.path.join(demo, "src", "main.rs")) else "cargo test --offline"
+meta["demo_cmd"] = demo_cmd
+code, out, dt = run(f"{demo_cmd} 2>&1 | tail -15", demo, demo_env)
+code_with, _, _ = run(f"{demo_cmd} >/dev/null 2>&1", demo, demo_env)
 meta["demo_fails_with_patch"] = code_with != 0
 meta["demo_output_with_patch"] = out[-1500:]
 meta["ran"].append(f"demo with patch: exit {code_with}")
 git(["checkout", "--", "."], wt)
-code_without, _, _ = run("cargo run --offline >/dev/null 2>&1", demo, demo_env)
+code_without, _, _ = run(f"{demo_cmd} >/dev/null 2>&1", demo, demo_env)
 meta["demo_passes_without_patch"] = code_without == 0
 meta["ran"].append(f"demo without patch: exit {code_without}")
 confirmed = meta["suite_passes_with_patch"] and meta["demo_fails_with_patch"] and meta["demo_passes_without_patch"]
